@@ -6,6 +6,7 @@ import Heathcliff.Proofs.GenEval
 import Heathcliff.Proofs.GenScalingSpec
 import Heathcliff.Proofs.GenPolySpec
 import Heathcliff.Proofs.GenEvalCt
+import Heathcliff.Proofs.GenEvalCt3
 
 /- Property theorems only (statements verbatim; proofs are the helper lemmas of Heathcliff/Proofs). -/
 namespace HC.C02
@@ -473,5 +474,29 @@ theorem gen_ct_translate_inplace_balance_partial : type_of% @HC.gc_translate_inp
 
 /-- PARTIAL (flat level): `size1 < size2`, subtraction: common part subtracted, tail copied and negated -/
 theorem gen_ct_translate_inplace_sub_tail_partial : type_of% @HC.gc_translate_inplace_sub_tail_partial := @HC.gc_translate_inplace_sub_tail_partial
+
+/-! ### translator tie, phase 4g: `Evaluator::translate_inplace` = `ctTranslate` / `ctTranslateBalanced` IN GENERAL (Proofs/GenEvalCt3.lean):
+     all size pairs (the longer-second-operand tail is copied and, in a subtraction, negated; the longer-first-operand rest is kept) and
+     unequal correction factors (BGV balancing: both operands scaled over ALL their polynomials, common factor, equal-factor routine).
+     This closes the two `_partial` statements above (kept: the balanced theorem is proved through the first). -/
+theorem gen_ct_translate_inplace_eq_general : type_of% @HC.gt_translate_inplace_eq_general := @HC.gt_translate_inplace_eq_general
+theorem gen_ct_translate_inplace_balanced : type_of% @HC.gt_translate_inplace_balanced := @HC.gt_translate_inplace_balanced
+theorem gen_ct_translate_inplace_top_eq : type_of% @HC.gt_translate_inplace_top_eq := @HC.gt_translate_inplace_top_eq
+theorem gen_ct_translate_inplace_refuses_size : type_of% @HC.gt_translate_inplace_refuses_size := @HC.gt_translate_inplace_refuses_size
+/-- non-vacuity: the hypothesis bundle of the two general theorems holds on the example BGV level (two moduli 17, n = 2, t = 5) for a
+    size-2 and a size-3 ciphertext with factors 1 and 2, subtraction -/
+example : HC.GenC.ct_translate_inplace (List.replicate 8 1) 2 1 (List.replicate 12 2) 3 2 true true true true false true
+      HC.c02v_exLevel.qs.toList HC.c02v_exLevel.t HC.c02v_exLevel.n =
+    Except.map (fun c => (HC.flattenCt HC.c02v_exLevel c, max 2 3, c.cf))
+      (HC.ctTranslateBalanced HC.c02v_exLevel (HC.unflattenCt HC.c02v_exLevel 2 (List.replicate 8 1) true 1)
+        (HC.unflattenCt HC.c02v_exLevel 3 (List.replicate 12 2) true 2) true) :=
+  HC.gt_translate_inplace_balanced HC.c02v_exLevel _ _ 2 3 true 1 2 true (by decide) HC.c02v_exT_wf (by norm_num) (by norm_num)
+    (Or.inr (by decide)) (by decide) (by decide) (by decide) (by decide) (by decide)
+example : HC.GenC.ct_translate_inplace_eq (List.replicate 12 1) 3 1 (List.replicate 8 2) 2 1 false true true true false true
+      HC.c02v_exLevel.qs.toList HC.c02v_exLevel.t HC.c02v_exLevel.n =
+    Except.map (fun c => (HC.flattenCt HC.c02v_exLevel c, max 3 2, 1))
+      (HC.ctTranslate HC.c02v_exLevel (HC.unflattenCt HC.c02v_exLevel 3 (List.replicate 12 1) true 1)
+        (HC.unflattenCt HC.c02v_exLevel 2 (List.replicate 8 2) true 1) false) :=
+  HC.gt_translate_inplace_eq_general HC.c02v_exLevel _ _ 3 2 true 1 false _ (Or.inr (by decide)) (by decide) (by decide) (by decide) (by decide) (by decide)
 
 end HC.C02
